@@ -80,7 +80,7 @@ class PROP(PropCheck):
     def expected(self, case, impl):
         if impl is None or impl.startswith(("ABORT", "PANIC")):
             return "X " + str(impl)[:100]
-        return impl.replace(" RENDERPANIC", "")
+        return impl.replace(" RENDERPANIC", "").replace(" BADSPAN", "")
 
     def oracle(self, case, impl):
         if impl is None or impl.startswith("ABORT"):
@@ -89,6 +89,8 @@ class PROP(PropCheck):
             return "the front end panicked: " + C.unhx(impl.split(" ")[1]).decode("utf-8", "replace")[:200]
         if "RENDERPANIC" in impl:
             return "rendering a diagnostic panicked"
+        if "BADSPAN" in impl:
+            return "a diagnostic labels a byte range that cannot be read from the source"
         if impl.startswith(("ERR", "LEXERR")) and int(impl.split(" ")[1]) < 1:
             return "failure without a diagnostic"
         return None
